@@ -77,7 +77,9 @@
   values of the i-th such line form the i-th cumulative block, and every stored value lies inside the Val of ITS line
   whether or not that line was stored — no constant map satisfies this when the header array overflows (refuted by
   evaluation for capacities 1 / 4); it implies both older forms (`pinned_implies_in_headers`); `msg_trim_last` names the
-  last buffer.
+  last buffer. `counts_unique`, `msg_counts_unique`, `contact_counts_exists_unique_init` (`Sipsp.Proofs.Leftovers2`): the
+  per-line counts are UNIQUE when every line of the type and every value is stored; they are genuinely not unique once
+  values are dropped (capacity 1, three values on two lines: `[1,2]` and `[2,1]` both fit).
 -/
 import Sipsp.Proofs.Layout
 import Sipsp.Properties.C01
@@ -88,6 +90,7 @@ import Sipsp.Proofs.SigCovered
 import Sipsp.Proofs.PaiLines
 import Sipsp.Proofs.HnoExact
 import Sipsp.Proofs.AuditFixC
+import Sipsp.Proofs.Leftovers2
 
 namespace Sipsp.C05
 open Sipsp
@@ -542,5 +545,20 @@ theorem pinned_assoc_map : type_of% @Sipsp.AfcAssoc.map := @Sipsp.AfcAssoc.map
     every stored Contact / identity value does not end with white space except in the one shape of `HxTrC`; the
     message is complete and `len(msg.Buf)` = the returned offset `≤ len(B)` -/
 theorem msg_trim_last : type_of% @Sipsp.afc_msg_trim_last := @Sipsp.afc_msg_trim_last
+
+/-! ### the per-line counts are unique when every line and every value is stored (proved in `Sipsp.Proofs.Leftovers2`) -/
+
+/-- **the counts of `AfcAssoc` are unique** when the `val` spans of the lines do not overlap and every value counted is
+    stored (`n ≤ vals.size`): two count lists that satisfy the conjuncts of `AfcAssoc` for the same object are equal -/
+theorem counts_unique : type_of% @Sipsp.lo2_counts_unique := @Sipsp.lo2_counts_unique
+
+/-- **message level**: for an object that satisfies the pinned statement `AfcMsg gs m` and the order facts `HlsLo`
+    (both proved for every successful ParseSIPMsg from Init: `afc_values_pinned_init`, `parseSIPMsg_lo_init`), with every
+    accepted header line stored and every contact (resp. identity) value stored, the per-line counts are determined -/
+theorem msg_counts_unique : type_of% @Sipsp.lo2_msg_counts_unique := @Sipsp.lo2_msg_counts_unique
+
+/-- **one ParseSIPMsg call from Init, OK, nothing dropped from the header array nor from the contact array**: there is
+    EXACTLY ONE list of per-line counts for the contact values (existence: `afc_values_pinned_init`) -/
+theorem contact_counts_exists_unique_init : type_of% @Sipsp.lo2_contact_counts_exists_unique_init := @Sipsp.lo2_contact_counts_exists_unique_init
 
 end Sipsp.C05
